@@ -2,7 +2,7 @@
    Only ExtrOcamlBasic is used (bool, option, unit, list, prod, sumbool -> OCaml natives; andb/orb/fst/snd inlined);
    nat, positive, N and Z stay the inductive Coq types. *)
 From Coq Require Import ExtrOcamlBasic.
-From BB.Model Require Channel Cleaner Buffer Callable Retry Caster Workers Worker Attempt Context PubSubSanity.
+From BB.Model Require Channel Cleaner Buffer Callable Retry Caster Workers Worker Attempt Context PubSubSanity Notifier ExclusiveAbs.
 Separate Extraction
   Channel.init Channel.step Channel.run Channel.spec_init Channel.spec_step Channel.spec_run Channel.abs
   Buffer.init Buffer.step Buffer.step_settled Buffer.run Buffer.clean Buffer.settle Buffer.buffer_range Buffer.pkg_range
@@ -18,4 +18,7 @@ Separate Extraction
   Context.confl_init Context.confl_step Context.confl_settle Context.confl_quiescent
   Context.is_canc Context.vals_of Context.lookup Context.run
   PubSubSanity.sanity_check PubSubSanity.sanity_fires PubSubSanity.add_subscribers
+  Notifier.run_publish Notifier.run_publish_gen Notifier.spec_publish Notifier.iter_raw
+  Notifier.subscribe Notifier.unsubscribe Notifier.lookup
+  ExclusiveAbs.init ExclusiveAbs.step ExclusiveAbs.run ExclusiveAbs.observe ExclusiveAbs.all_picks ExclusiveAbs.all_vars ExclusiveAbs.terminalb
   Cleaner.default_cleaner Cleaner.fixed_cleaner Cleaner.clamp_shift Cleaner.default_spec.
